@@ -8,7 +8,10 @@ import (
 )
 
 func (core *JApiCore) collectRules() *jerr.JApiError {
-	return core.collectRulesFromDirectives(core.directives)
+	// The rules are collected after the PASTE directives are expanded, in the
+	// order of the expanded document: an ENUM coming from a macro takes the place
+	// of its PASTE, exactly as if it was written there.
+	return core.collectRulesFromDirectives(core.directivesWithPastes)
 }
 
 func (core *JApiCore) collectRulesFromDirectives(dd []*directive.Directive) *jerr.JApiError {
